@@ -525,6 +525,7 @@ package datalog
 //@ chan c yields x: x.error != nil || (x.MatchedVariables != nil && bindingsWF(x.MatchedVariables))
 //@ chan c yields x: tableGrown(*syms, old(*syms))
 //@ chan c sends x: x.error == nil ==> (forall q int :: { predicates[q] } 0 <= q && q < len(predicates) ==> unifiesUpTo(x.MatchedVariables, predicates[q], (*facts)[indexes[q]].Predicate, len(predicates[q].Terms)))
+//@ chan c sends x: x.error == nil ==> (forall i int :: { predicates[i] } 0 <= i && i < len(predicates) ==> predMatch((*facts)[indexes[i]].Predicate, predicates[i]))
 //@ chan c final_if x: x.error != nil
 // why the enumeration may stop (C05, one clause per return statement; ret0 is the
 // synthetic recover block): no fact at all; odometer exhausted (first index at the last
@@ -545,21 +546,26 @@ package datalog
 //@ loop 0 invariant vars0: partialBindingsWF(variables)
 //@ loop 0 invariant forall j int :: { indexes[j] } 0 <= j && j < len(indexes) ==> 0 <= indexes[j] && (len(*facts) > 0 ==> indexes[j] < len(*facts))
 //@ loop 0 invariant arity: forall i int :: { predicates[i] } 0 <= i && i < current ==> len((*facts)[indexes[i]].Predicate.Terms) == len(predicates[i].Terms)
+//@ loop 0 invariant matched[C05]: forall i int :: { predicates[i] } 0 <= i && i < current ==> predMatch((*facts)[indexes[i]].Predicate, predicates[i])
 //@ loop 1 invariant !sentFinal(c) && len(indexes) == len(predicates) && fresh(arr(indexes)) && tableGrown(*syms, old(*syms)) && len(predicates) > 0 && len(*facts) > 0
 //@ loop 1 invariant 0 <= current && current < len(predicates)
 //@ loop 1 invariant vars0: partialBindingsWF(variables)
 //@ loop 1 invariant forall j int :: { indexes[j] } 0 <= j && j < len(indexes) ==> 0 <= indexes[j] && indexes[j] < len(*facts)
 //@ loop 1 invariant arity: forall i int :: { predicates[i] } 0 <= i && i < current ==> len((*facts)[indexes[i]].Predicate.Terms) == len(predicates[i].Terms)
+//@ loop 1 invariant matched[C05]: forall i int :: { predicates[i] } 0 <= i && i < current ==> predMatch((*facts)[indexes[i]].Predicate, predicates[i])
 //@ loop 2 invariant lens: len(indexes) == len(predicates)
 //@ loop 2 invariant varsok: vars != nil && partialBindingsWF(vars)
 //@ loop 2 invariant table: tableGrown(*syms, old(*syms))
 //@ loop 2 invariant forall j int :: { indexes[j] } 0 <= j && j < len(indexes) ==> 0 <= indexes[j] && (len(*facts) > 0 ==> indexes[j] < len(*facts))
 //@ loop 2 invariant arity: len(predicates) > 0 ==> len(*facts) > 0 && (forall i int :: { predicates[i] } 0 <= i && i < len(predicates) ==> len((*facts)[indexes[i]].Predicate.Terms) == len(predicates[i].Terms))
+//@ loop 2 invariant matched[C05]: len(predicates) > 0 ==> (forall i int :: { predicates[i] } 0 <= i && i < len(predicates) ==> predMatch((*facts)[indexes[i]].Predicate, predicates[i]))
 //@ loop 3 invariant 0 <= j && vars != nil && partialBindingsWF(vars)
+//@ loop 3 invariant matched[C05]: forall i int :: { predicates[i] } 0 <= i && i < len(predicates) ==> predMatch((*facts)[indexes[i]].Predicate, predicates[i])
 //@ loop 2 invariant unified: forall q int :: { predicates[q] } 0 <= q && q < #i ==> unifiesUpTo(vars, predicates[q], (*facts)[indexes[q]].Predicate, len(predicates[q].Terms))
 //@ loop 3 invariant earlier: forall q int :: { predicates[q] } 0 <= q && q < i ==> unifiesUpTo(vars, predicates[q], (*facts)[indexes[q]].Predicate, len(predicates[q].Terms))
 //@ loop 3 invariant current: unifiesUpTo(vars, pred, fact.Predicate, j)
 //@ loop 3 invariant same: pred == predicates[i] && fact == (*facts)[indexes[i]] && 0 <= i && i < len(predicates)
+//@ loop 4 invariant matched[C05]: len(predicates) > 0 ==> (forall i int :: { predicates[i] } 0 <= i && i < len(predicates) ==> predMatch((*facts)[indexes[i]].Predicate, predicates[i]))
 //@ loop 4 invariant !sentFinal(c) && tableGrown(*syms, old(*syms)) && tableGrownInLoop(*syms, pre(*syms)) && complete_vars != nil && bindingsWF(complete_vars)
 
 //@ func combine(variables MatchedVariables, predicates []Predicate, expressions []Expression, facts *FactSet, syms *SymbolTable) (res chan)
